@@ -355,7 +355,7 @@ def run(ck):
                     ok = True
                 else:
                     for sw in T.switches_on_expr(g, lambda e: e[0] == "discr"):
-                        e = g.expr(g.blocks[sw]["term"]["on"])
+                        e = g.expr(g.blocks[sw]["term"]["on"], at=sw)
                         if any(("registration" in "".join(p) or ".token" in p) for r, p in g.resolve(e[2])) and T.reachable_only_via(g, cb.bb, T.discr_edges(g, sw, 1)):
                             ok = True
             ck.verdict(ok, "5", "T4-guarded-by", g, "callback-only-if-event-token==own-token", "the callback is reachable only on the edge where the event's token equals the recorded %s (and one is recorded)" % own, "the user callback can run for an event whose token is not the one this source registered (or while it has none, i.e. after unregister/disable): events of other sub-sources, or events collected before a disable, reach the callback", site=g.where(cb.bb))
